@@ -56,6 +56,7 @@ type Sim struct {
 	finished atomic.Bool
 	closed   atomic.Bool
 	passAll  atomic.Bool
+	thawed   atomic.Bool
 	seq      atomic.Uint64
 
 	// configuration (set by the scenario before Run or at its very start)
@@ -73,6 +74,9 @@ type Sim struct {
 	GatePrefixes []string
 	GateTokens   int
 	gatedG       map[uint64]bool
+	// HoldPrefix: tasks parked at a site with this prefix are not scheduled while it is set (an I/O
+	// operation that does not return yet)
+	HoldPrefix string
 
 	policy   Policy
 	stickyP  float64
@@ -131,6 +135,9 @@ func (s *Sim) FaultFired(kind string) {
 
 // Violate records the first violation of the run.
 func (s *Sim) Violate(class, format string, a ...any) {
+	if s.thawed.Load() {
+		return
+	}
 	s.mu.Lock()
 	if s.viol == nil {
 		s.viol = &Violation{Class: class, Detail: fmt.Sprintf(format, a...)}
@@ -235,6 +242,21 @@ func (s *Sim) KillFrozen() {
 	s.mu.Unlock()
 }
 
+// ThawAll ends scheduling for the run: every parked task (frozen ones of crashed incarnations
+// included) continues on the Go scheduler with all scheduling points switched off, so that a crashed
+// incarnation can finish what it was doing and be shut down gracefully (closing stores, stopping
+// tickers) before the bubble ends. Call it last, after every oracle was evaluated.
+func (s *Sim) ThawAll() {
+	s.thawed.Store(true) // nothing that happens from here on is judged
+	s.passAll.Store(true)
+	s.mu.Lock()
+	for _, w := range s.parked {
+		close(w.ch)
+	}
+	s.parked = nil
+	s.mu.Unlock()
+}
+
 // FreezeParked marks every task that is parked right now, except those whose site has one of the
 // given prefixes, as belonging to a crashed process: it stays parked for the rest of the run.
 // It returns the sites that were frozen.
@@ -299,7 +321,7 @@ func (s *Sim) enabled() []*waiter {
 	s.mu.Lock()
 	ws := make([]*waiter, 0, len(s.parked))
 	for _, w := range s.parked {
-		if w.frozen || (s.GateTokens == 0 && s.gated(w)) {
+		if w.frozen || (s.GateTokens == 0 && s.gated(w)) || s.held(w) {
 			continue
 		}
 		if w.free == nil || w.free() {
@@ -323,6 +345,10 @@ func (s *Sim) nParked() int {
 	s.mu.Lock()
 	defer s.mu.Unlock()
 	return len(s.parked)
+}
+
+func (s *Sim) held(w *waiter) bool {
+	return s.HoldPrefix != "" && strings.HasPrefix(w.site, s.HoldPrefix)
 }
 
 func (s *Sim) gated(w *waiter) bool { return w.gid != 0 && s.gatedG[w.gid] }
@@ -352,9 +378,24 @@ func (s *Sim) WaitGate() {
 			return true
 		}
 		for _, w := range s.parked {
-			if !w.frozen && s.gated(w) {
+			if !w.frozen && s.gated(w) && !s.held(w) {
 				return false
 			}
+		}
+		return true
+	})
+}
+
+// Settle parks the caller until no other task is waiting to run: every other task has finished or
+// blocks on something only the caller can provide. It needs no fairness assumption (the caller is
+// simply not enabled while others are).
+func (s *Sim) Settle() {
+	s.hookYield("settle", 0, func() bool {
+		for _, w := range s.parked {
+			if w.site == "settle" || w.frozen || (s.GateTokens == 0 && s.gated(w)) || s.held(w) {
+				continue
+			}
+			return false
 		}
 		return true
 	})
@@ -365,7 +406,7 @@ func (s *Sim) GatedPos() (site string, key uint64, ok bool) {
 	s.mu.Lock()
 	defer s.mu.Unlock()
 	for _, w := range s.parked {
-		if !w.frozen && s.gated(w) {
+		if !w.frozen && s.gated(w) && !s.held(w) {
 			return w.site, w.key, true
 		}
 	}
